@@ -296,6 +296,11 @@ def main():
             if not rp["equal"]:
                 c.violation("replay", "replayed simulation differs from the original",
                             dict(job=job, outcome=rp["outcome"], diff=rp.get("diff"), scene_has_mutated_objects=bool(r.get("mutated"))))
+            for key in ("rerecord_equal", "gen2_equal", "extended_prefix_equal", "extended_gen2_equal"):
+                if key in rp:
+                    c.hist("replay:" + key)
+                    if not rp[key] and not r.get("mutated"):
+                        c.violation("replay", f"second-generation replay check failed: {key}", dict(job=job, which=key, detail={k: rp.get(k) for k in ("gen2_outcome", "extended_outcome")}, scene_has_mutated_objects=bool(r.get("mutated"))))
             divs = rp.get("div", [])
             mo = common.run_driver(exe, [f"DIV 0 {dk} {tk}" for dk, tk, _ in divs]) if divs else []
             for (dk, tk, got_), m in zip(divs, mo):
